@@ -33,9 +33,20 @@ pub struct Family {
     ///        digit): the value is below the rounding quantum;
     /// `TINY` the kept part is zero and the value is below a tenth of the
     ///        quantum (0.001 to one digit): only the directed modes move it.
-    /// The last two exist because "this is as good as zero" shortcuts are
+    /// `TAIL` q + ε and q + ½ ± ε with ε far below the digit that decides: what
+///        a "the rest cannot matter" truncation before rounding gets wrong.
+/// `GRE`  (7w ± 1)/70: the divisor-scaled branch of `div_rounded` with an
+///        INEXACT inner division.  That branch truncates before it rounds
+///        (DESIGN §4), which manufactures ties; its families are therefore
+///        `judged_only`: they must tell apart what the exact routes tell apart
+///        (they do, and would after a repair), but what they tell apart in
+///        excess is not held against the others.
+/// The classes after NONNEG exist because "this is as good as zero" shortcuts are
     /// taken on exactly these inputs and are wrong for the directed modes.
     pub class: usize,
+    /// Judged against its class, but neither counted as a sibling that "tells
+    /// modes apart" nor held to route agreement (see `GRE`).
+    pub judged_only: bool,
 }
 
 pub const STD: usize = 0;
@@ -48,7 +59,9 @@ pub const TINY: usize = 3;
 /// can separate depends on d (no ties for odd d, nothing but ties and exact
 /// quotients for d = 2), so each d is a class of its own.
 pub const DIVISORS: [i128; 11] = [2, 3, 4, 5, 6, 7, 8, 9, 16, 25, 125];
-pub const N_FIXED: usize = 4;
+pub const TAIL: usize = 4;
+pub const GRE: usize = 5;
+pub const N_FIXED: usize = 6;
 pub const N_CLASSES: usize = N_FIXED + DIVISORS.len();
 
 /// w · 10^-(n+1) rounded to n digits
@@ -57,7 +70,7 @@ pub const W_SUB: [i128; 12] = [1, -1, 5, -5, 7, -7, 3, -3, 4, -4, 6, -6];
 pub const W_TINY: [i128; 12] = [1, -1, 5, -5, 49, -49, 3, -3, 7, -7, 99, -99];
 
 fn fam(name: String, ops: Vec<Op>) -> Family {
-    Family { name, ops, class: STD }
+    Family { name, ops, class: STD, judged_only: false }
 }
 
 pub fn families() -> Vec<Family> {
@@ -112,8 +125,14 @@ pub fn families() -> Vec<Family> {
         let sgn = |w: i128| if w < 0 { -1i128 } else { 1 };
         v.push(fam(format!("checked_div_id/{}", ty.name()), each(&|w| Op::CheckedDivID {
             i: Int { ty, v: w.abs() }, b: (sgn(w) * 10i128.pow(19), 0) })));
-        v.push(fam(format!("quantize_id/{}", ty.name()), each(&|w| Op::QuantizeID {
-            i: Int { ty, v: w.abs() }, q: (sgn(w) * 10, 0) })));
+        // (a negative quantum would make it a different rounding problem:
+        // round(-w/10) * -10, so the sign stays with the integer here)
+        if ty.signed() {
+            v.push(fam(format!("quantize_id/{}", ty.name()), each(&|w| Op::QuantizeID { i: Int { ty, v: w }, q: (10, 0) })));
+        } else {
+            let ops: Vec<Op> = W.iter().filter(|w| **w > 0).map(|w| Op::QuantizeID { i: Int { ty, v: *w }, q: (10, 0) }).collect();
+            v.push(Family { name: format!("quantize_id/{}", ty.name()), ops, class: NONNEG, judged_only: false });
+        }
         for f in 0..4u8 {
             v.push(fam(format!("div_id/{}/form{}", ty.name(), f), each(&|w| Op::DivID {
                 i: Int { ty, v: w.abs() }, b: (sgn(w) * 10i128.pow(19), 0), form: f })));
@@ -125,14 +144,14 @@ pub fn families() -> Vec<Family> {
                 v.push(fam(format!("div_rounded_ii/{}/form{}", ty.name(), f), each(&|w| Op::DivRoundedII { i: Int { ty, v: w }, j: 10, n: 0, form: f })));
             } else {
                 let ops: Vec<Op> = W.iter().filter(|w| **w > 0).map(|w| Op::DivRoundedII { i: Int { ty, v: *w }, j: 10, n: 0, form: f }).collect();
-                v.push(Family { name: format!("div_rounded_ii/{}/form{}", ty.name(), f), ops, class: NONNEG });
+                v.push(Family { name: format!("div_rounded_ii/{}/form{}", ty.name(), f), ops, class: NONNEG, judged_only: false });
             }
         }
         if ty.signed() {
             v.push(fam(format!("quantize_ii/{}", ty.name()), each(&|w| Op::QuantizeII { i: Int { ty, v: w }, j: 10 })));
         } else {
             let ops: Vec<Op> = W.iter().filter(|w| **w > 0).map(|w| Op::QuantizeII { i: Int { ty, v: *w }, j: 10 }).collect();
-            v.push(Family { name: format!("quantize_ii/{}", ty.name()), ops, class: NONNEG });
+            v.push(Family { name: format!("quantize_ii/{}", ty.name()), ops, class: NONNEG, judged_only: false });
         }
     }
     for var in 0..N_FMT_VARIANTS {
@@ -182,7 +201,7 @@ pub fn families() -> Vec<Family> {
     // values below the rounding quantum
     for (class, cname, ws, t) in [(SUB, "sub", W_SUB, 1u8), (TINY, "tiny", W_TINY, 3u8)] {
         let mut push = |name: String, f: &dyn Fn(i128) -> Op| {
-            v.push(Family { name, ops: ws.iter().map(|w| f(*w)).collect(), class });
+            v.push(Family { name, ops: ws.iter().map(|w| f(*w)).collect(), class, judged_only: false });
         };
         let p10 = 10i128.pow(t as u32);
         for n in [0i8, 2, -1] {
@@ -203,16 +222,124 @@ pub fn families() -> Vec<Family> {
         }
         for ty in [IntTy::I32, IntTy::U64, IntTy::I128] {
             push(format!("div_di/{}/{}", cname, ty.name()), &|w| Op::DivDI { a: (w, 18), i: Int { ty, v: p10 }, form: 0 });
-            push(format!("div_rounded_di/{}/{}", cname, ty.name()), &|w| Op::DivRoundedDI { a: (w, t - 1), i: Int { ty, v: 10 }, n: 0, form: 0 });
+            // (a: (w, t-1), i: 10 would take the divisor-scaled branch with an
+            // inexact inner division: the known double rounding, DESIGN §4)
+            push(format!("div_rounded_di/{}/{}", cname, ty.name()), &|w| Op::DivRoundedDI { a: (w, 0), i: Int { ty, v: p10 }, n: 0, form: 0 });
         }
         for var in 0..N_FMT_VARIANTS {
             push(format!("display/{}/variant{}/p=1", cname, var), &|w| Op::Fmt { a: (w, t + 1), var, w: 0, p: 1, pauses: vec![], err_at: 0, reent: false });
+        }
+    }
+    // negative divisors: (-w) / (-10) is the same w/10
+    for f in 0..5u8 {
+        v.push(fam(format!("div/negdiv/form{}", f), each(&|w| Op::Div { a: (-w, 18), b: (-10, 0), form: f })));
+    }
+    for f in 0..4u8 {
+        v.push(fam(format!("checked_div/negdiv/form{}", f), each(&|w| Op::CheckedDiv { a: (-w, 18), b: (-10, 0), form: f })));
+        v.push(fam(format!("div_rounded/negdiv/equal/form{}", f), each(&|w| Op::DivRounded { a: (-w, 0), b: (-10, 0), n: 0, form: f })));
+        v.push(fam(format!("div_rounded/negdiv/less/form{}", f), each(&|w| Op::DivRounded { a: (-w, 0), b: (-1000, 0), n: 2, form: f })));
+    }
+    for ty in INT_TYS {
+        if ty.signed() {
+            let m10 = Int { ty, v: -10 };
+            v.push(fam(format!("div_di/negdiv/{}", ty.name()), each(&|w| Op::DivDI { a: (-w, 18), i: m10, form: 0 })));
+            v.push(fam(format!("checked_div_di/negdiv/{}", ty.name()), each(&|w| Op::CheckedDivDI { a: (-w, 18), i: m10 })));
+            v.push(fam(format!("div_rounded_di/negdiv/{}", ty.name()), each(&|w| Op::DivRoundedDI { a: (-w, 0), i: m10, n: 0, form: 0 })));
+            v.push(fam(format!("div_rounded_ii/negdiv/{}", ty.name()), each(&|w| Op::DivRoundedII { i: Int { ty, v: -w }, j: -10, n: 0, form: 0 })));
+            // the non-negative witnesses through signed and Decimal routes:
+            // siblings for the unsigned families
+            let pos: Vec<i128> = W.iter().copied().filter(|w| *w > 0).collect();
+            v.push(Family { name: format!("div_rounded_ii/pos/{}", ty.name()), ops: pos.iter().map(|w| Op::DivRoundedII { i: Int { ty, v: *w }, j: 10, n: 0, form: 0 }).collect(), class: NONNEG, judged_only: false });
+            v.push(Family { name: format!("quantize_ii/pos/{}", ty.name()), ops: pos.iter().map(|w| Op::QuantizeII { i: Int { ty, v: *w }, j: 10 }).collect(), class: NONNEG, judged_only: false });
+        }
+    }
+    {
+        let pos: Vec<i128> = W.iter().copied().filter(|w| *w > 0).collect();
+        v.push(Family { name: "round/pos".into(), ops: pos.iter().map(|w| Op::Round { a: (*w, 1), n: 0 }).collect(), class: NONNEG, judged_only: false });
+        v.push(Family { name: "div_rounded/pos".into(), ops: pos.iter().map(|w| Op::DivRounded { a: (*w, 0), b: (10, 0), n: 0, form: 0 }).collect(), class: NONNEG, judged_only: false });
+        v.push(Family { name: "quantize/pos".into(), ops: pos.iter().map(|w| Op::Quantize { a: (*w, 0), q: (10, 0), form: 0 }).collect(), class: NONNEG, judged_only: false });
+    }
+    tail_families(&mut v);
+    {
+        let cs: Vec<i128> = W.iter().map(|w| 7 * w + w.signum()).collect();
+        let mut push = |name: String, judged_only: bool, f: &dyn Fn(i128) -> Op| {
+            v.push(Family { name, ops: cs.iter().map(|c| f(*c)).collect(), class: GRE, judged_only });
+        };
+        for f in 0..4u8 {
+            push(format!("div_rounded/by70/equal/form{}", f), false, &|c| Op::DivRounded { a: (c, 0), b: (70, 0), n: 0, form: f });
+            push(format!("div_rounded/by70/less/form{}", f), false, &|c| Op::DivRounded { a: (c, 0), b: (7000, 0), n: 2, form: f });
+            push(format!("checked_div/by70/form{}", f), false, &|c| Op::CheckedDiv { a: (c, 18), b: (70, 0), form: f });
+            push(format!("div_rounded/by7/scaled/n=0/form{}", f), true, &|c| Op::DivRounded { a: (c, 1), b: (7, 0), n: 0, form: f });
+            push(format!("div_rounded/by7/scaled/n=2/form{}", f), true, &|c| Op::DivRounded { a: (c, 3), b: (7, 0), n: 2, form: f });
+            push(format!("div_rounded/by0.7/scaled/form{}", f), true, &|c| Op::DivRounded { a: (c, 2), b: (7, 1), n: 0, form: f });
+        }
+        for f in 0..5u8 {
+            push(format!("div/by70/form{}", f), false, &|c| Op::Div { a: (c, 18), b: (70, 0), form: f });
+        }
+        for ty in INT_TYS {
+            push(format!("div_di/by70/{}", ty.name()), false, &|c| Op::DivDI { a: (c, 18), i: Int { ty, v: 70 }, form: 0 });
+            push(format!("div_rounded_di/by70/{}", ty.name()), false, &|c| Op::DivRoundedDI { a: (c, 0), i: Int { ty, v: 70 }, n: 0, form: 0 });
+            for f in 0..4u8 {
+                push(format!("div_rounded_di/by7/scaled/{}/form{}", ty.name(), f), true, &|c| Op::DivRoundedDI { a: (c, 1), i: Int { ty, v: 7 }, n: 0, form: f });
+            }
         }
     }
     for (di, dv) in DIVISORS.iter().enumerate() {
         divisor_families(&mut v, N_FIXED + di, *dv);
     }
     v
+}
+
+/// The sixteen abstract TAIL witnesses: (kept part q, half?, sign of ε, sign).
+pub const TAIL_W: [(i128, i128, i128, i128); 16] = [
+    (1, 0, 1, 1), (1, 0, 1, -1), (2, 0, 1, 1), (2, 0, 1, -1),
+    (5, 0, 1, 1), (5, 0, 1, -1), (10, 0, 1, 1), (10, 0, 1, -1),
+    (1, 1, 1, 1), (1, 1, 1, -1), (1, 1, -1, 1), (1, 1, -1, -1),
+    (2, 1, 1, 1), (2, 1, 1, -1), (2, 1, -1, 1), (2, 1, -1, -1),
+];
+
+/// Witness `t` as a coefficient with `e` digits after the deciding position:
+/// ±(q·10^e + h·5·10^(e-1) ± 1).
+fn tail_coeff(t: (i128, i128, i128, i128), e: u32) -> i128 {
+    let (q, h, es, sg) = t;
+    sg * (q * 10i128.pow(e) + h * 5 * 10i128.pow(e - 1) + es)
+}
+
+fn tail_families(v: &mut Vec<Family>) {
+    let mut push = |name: String, e: u32, f: &dyn Fn(i128) -> Op| {
+        v.push(Family { name: format!("{}/tail{}", name, e), ops: TAIL_W.iter().map(|t| f(tail_coeff(*t, e))).collect(), class: TAIL, judged_only: false });
+    };
+    for e in [3u32, 17] {
+        let eu = e as u8;
+        push("round/n=0".into(), e, &|c| Op::Round { a: (c, eu), n: 0 });
+        push("checked_round/n=0".into(), e, &|c| Op::CheckedRound { a: (c, eu), n: 0 });
+        push("display/p=1".into(), e, &|c| Op::Fmt { a: (c, eu + 1), var: 0, w: 0, p: 1, pauses: vec![], err_at: 0, reent: false });
+        push("quantize".into(), e, &|c| Op::Quantize { a: (c, eu + 1), q: (1, 1), form: 0 });
+        for f in 0..4u8 {
+            push(format!("mul_rounded/form{}", f), e, &|c| Op::MulRounded { a: (c, eu), b: (1, 1), n: 1, form: f });
+            push(format!("div_rounded/greater/form{}", f), e, &|c| Op::DivRounded { a: (c, eu + 1), b: (1, 0), n: 1, form: f });
+            push(format!("div_rounded/equal/form{}", f), e, &|c| Op::DivRounded { a: (c, 0), b: (10i128.pow(e), 0), n: 0, form: f });
+        }
+    }
+    push("round/n=-1".into(), 3, &|c| Op::Round { a: (c, 2), n: -1 });
+    push("checked_round/n=-1".into(), 3, &|c| Op::CheckedRound { a: (c, 2), n: -1 });
+    for f in 0..4u8 {
+        push(format!("div_rounded/less/form{}", f), 3, &|c| Op::DivRounded { a: (c, 0), b: (100_000, 0), n: 2, form: f });
+        push(format!("checked_div/form{}", f), 3, &|c| Op::CheckedDiv { a: (c, 18), b: (1000, 0), form: f });
+        // more than 18 digits to drop: the extra ones come from the factor
+        push(format!("mul_rounded/long/form{}", f), 18, &|c| Op::MulRounded { a: (c, 18), b: (1, 2), n: 2, form: f });
+        push(format!("mul_rounded/long/form{}", f), 19, &|c| Op::MulRounded { a: (c, 18), b: (1, 1), n: 0, form: f });
+        push(format!("mul_rounded/long/form{}", f), 25, &|c| Op::MulRounded { a: (c, 18), b: (1, 7), n: 0, form: f });
+    }
+    for f in 0..5u8 {
+        push(format!("div/form{}", f), 3, &|c| Op::Div { a: (c, 18), b: (1000, 0), form: f });
+        push(format!("mul/form{}", f), 3, &|c| Op::Mul { a: (c, 18), b: (1, 3), form: f });
+        push(format!("mul/form{}", f), 10, &|c| Op::Mul { a: (c, 18), b: (1, 10), form: f });
+    }
+    for ty in [IntTy::I16, IntTy::U32, IntTy::I64, IntTy::I128] {
+        push(format!("div_di/{}", ty.name()), 3, &|c| Op::DivDI { a: (c, 18), i: Int { ty, v: 1000 }, form: 0 });
+        push(format!("div_rounded_di/{}", ty.name()), 3, &|c| Op::DivRoundedDI { a: (c, 0), i: Int { ty, v: 1000 }, n: 0, form: 0 });
+    }
 }
 
 /// Numerators for divisor `d`: kept part 1 (odd), 2 (even), 5 and 10 (the
@@ -236,13 +363,17 @@ fn divisor_families(v: &mut Vec<Family>, class: usize, dv: i128) {
     let cs = numerators(dv);
     let cmax = *cs.iter().max().unwrap();
     let mut push = |name: String, f: &dyn Fn(i128) -> Op| {
-        v.push(Family { name: format!("{}/by{}", name, dv), ops: cs.iter().map(|c| f(*c)).collect(), class });
+        v.push(Family { name: format!("{}/by{}", name, dv), ops: cs.iter().map(|c| f(*c)).collect(), class, judged_only: false });
     };
     let e18 = 10i128.pow(18);
     for f in 0..5u8 {
         push(format!("div/form{}", f), &|c| Op::Div { a: (c, 18), b: (dv, 0), form: f });
         push(format!("div/fracdiv/form{}", f), &|c| Op::Div { a: (c, 16), b: (dv * 100, 0), form: f });
     }
+    push("div/negdiv".into(), &|c| Op::Div { a: (-c, 18), b: (-dv, 0), form: 0 });
+    push("checked_div/negdiv".into(), &|c| Op::CheckedDiv { a: (-c, 18), b: (-dv, 0), form: 0 });
+    push("div_rounded/negdiv".into(), &|c| Op::DivRounded { a: (-c, 2), b: (-dv, 0), n: 2, form: 0 });
+    push("div_di/negdiv/i64".into(), &|c| Op::DivDI { a: (-c, 18), i: Int { ty: IntTy::I64, v: -dv }, form: 0 });
     for f in 0..4u8 {
         push(format!("checked_div/form{}", f), &|c| Op::CheckedDiv { a: (c, 18), b: (dv, 0), form: f });
         push(format!("div_rounded/equal/form{}", f), &|c| Op::DivRounded { a: (c, 2), b: (dv, 0), n: 2, form: f });
@@ -472,6 +603,9 @@ fn run_on_this_thread(only: Option<&str>) -> L2Report {
     let mut sep = [[[false; 8]; 8]; N_CLASSES];
     for (f, rows) in fams.iter().zip(all_rows.iter()) {
         let d = f.class;
+        if f.judged_only {
+            continue;
+        }
         for a in 0..8usize {
             for b in (a + 1)..8usize {
                 if rows[a] != rows[b] {
@@ -541,7 +675,160 @@ fn run_on_this_thread(only: Option<&str>) -> L2Report {
             }
         }
     }
+    // Route agreement.  Witness i of every family of a class is the SAME
+    // rounding problem (the same rational in units of the last kept digit), so
+    // under one mode every route must pick the same one of the two candidate
+    // results.  Results are only ORDERED within a family (never computed):
+    // per witness, each mode gets 0 (the smaller candidate) or 1 (the larger),
+    // "all modes agree" is a pattern of its own.  A route whose pattern
+    // differs from the one most routes of its class show has resolved some
+    // mode differently - e.g. Floor and Ceiling swapped by a sign trick,
+    // which the partition criterion above cannot see.
+    let mut agreeing = 0usize;
+    // (routes whose quotients are of another order of magnitude - the /wide
+    // and /big families - agree among themselves: an arithmetic defect of the
+    // kernel that depends on the quotient's size, like control ok2, is not a
+    // disagreement about the mode)
+    let is_big = |i: usize| fams[i].name.contains("/wide") || fams[i].name.contains("/big");
+    for group in 0..2 * N_CLASSES {
+        let (class, big) = (group / 2, group % 2 == 1);
+        let members: Vec<usize> = (0..fams.len())
+            .filter(|i| fams[*i].class == class && !fams[*i].judged_only && is_big(*i) == big)
+            .collect();
+        if members.len() < 3 {
+            continue;
+        }
+        let pats: Vec<Vec<u8>> = members.iter().map(|i| pattern(&all_rows[*i])).collect();
+        let mut best: (usize, &Vec<u8>) = (0, &pats[0]);
+        for p in &pats {
+            let n = pats.iter().filter(|q| *q == p).count();
+            if n > best.0 {
+                best = (n, p);
+            }
+        }
+        let consensus = best.1.clone();
+        for (k, i) in members.iter().enumerate() {
+            if pats[k] == consensus {
+                agreeing += 1;
+                continue;
+            }
+            if let Some(o) = only {
+                if fams[*i].name != o {
+                    continue;
+                }
+            }
+            if pats[k].len() != consensus.len() {
+                continue;
+            }
+            let at = (0..consensus.len()).find(|j| pats[k][*j] != consensus[*j]).unwrap();
+            let (wi, m) = (at / 8, at % 8);
+            let say = |c: u8| match c {
+                0 => "the smaller of the two candidate results",
+                1 => "the larger of the two candidate results",
+                2 => "the one result all eight modes give",
+                _ => "something that cannot be ordered",
+            };
+            failures.push(L2Failure {
+                kind: "route-disagrees".into(),
+                family: fams[*i].name.clone(),
+                detail: format!(
+                    "`{}` under {} returns {} ({}); {} of the {} routes that round the same value return {}",
+                    fams[*i].ops[wi].to_text(),
+                    MODE_NAMES[m],
+                    say(pats[k][at]),
+                    all_rows[*i][m][wi].show(),
+                    best.0,
+                    members.len(),
+                    say(consensus[at])
+                ),
+            });
+        }
+    }
+    let _ = agreeing;
     L2Report { families: n_fams, witness_evals, pairs_separated: pairs, failures, sample }
+}
+
+/// The value of an outcome as (coefficient, scale), if it has one.
+fn value_of(o: &Outcome) -> Option<(i128, u32)> {
+    match o {
+        Outcome::Dec(c, s) => Some((*c, *s as u32)),
+        Outcome::Text { out, ok: true } => {
+            let t: String = out.chars().filter(|c| c.is_ascii_digit() || *c == '.' || *c == '-').collect();
+            let neg = t.starts_with('-');
+            let t = t.trim_start_matches('-');
+            if t.is_empty() || t.contains('-') {
+                return None;
+            }
+            let (ip, fp) = match t.split_once('.') {
+                Some((a, b)) => (a, b),
+                None => (t, ""),
+            };
+            if fp.contains('.') {
+                return None;
+            }
+            let digits = format!("{}{}", ip, fp);
+            let c: i128 = digits.parse().ok()?;
+            Some((if neg { -c } else { c }, fp.len() as u32))
+        }
+        _ => None,
+    }
+}
+
+fn cmp_values(a: (i128, u32), b: (i128, u32)) -> Option<std::cmp::Ordering> {
+    let s = a.1.max(b.1);
+    let x = a.0.checked_mul(10i128.checked_pow(s - a.1)?)?;
+    let y = b.0.checked_mul(10i128.checked_pow(s - b.1)?)?;
+    Some(x.cmp(&y))
+}
+
+/// rows[mode][witness] -> per witness eight codes: 0 smaller candidate,
+/// 1 larger candidate, 2 all modes agree, 3 not orderable / more than two
+/// candidates / no value (panic, None, error).
+fn pattern(rows: &[Vec<Outcome>]) -> Vec<u8> {
+    let n = rows[0].len();
+    let mut p = Vec::with_capacity(n * 8);
+    for i in 0..n {
+        let vals: Vec<Option<(i128, u32)>> = (0..8).map(|m| value_of(&rows[m][i])).collect();
+        let mut codes = [3u8; 8];
+        if vals.iter().all(|v| v.is_some()) {
+            let vs: Vec<(i128, u32)> = vals.iter().map(|v| v.unwrap()).collect();
+            // smallest and largest
+            let mut lo = vs[0];
+            let mut hi = vs[0];
+            let mut ok = true;
+            for x in &vs[1..] {
+                match (cmp_values(*x, lo), cmp_values(*x, hi)) {
+                    (Some(a), Some(b)) => {
+                        if a == std::cmp::Ordering::Less {
+                            lo = *x;
+                        }
+                        if b == std::cmp::Ordering::Greater {
+                            hi = *x;
+                        }
+                    }
+                    _ => ok = false,
+                }
+            }
+            if ok {
+                let same = cmp_values(lo, hi) == Some(std::cmp::Ordering::Equal);
+                for m in 0..8 {
+                    let is_lo = cmp_values(vs[m], lo) == Some(std::cmp::Ordering::Equal);
+                    let is_hi = cmp_values(vs[m], hi) == Some(std::cmp::Ordering::Equal);
+                    codes[m] = if same {
+                        2
+                    } else if is_lo {
+                        0
+                    } else if is_hi {
+                        1
+                    } else {
+                        3
+                    };
+                }
+            }
+        }
+        p.extend_from_slice(&codes);
+    }
+    p
 }
 
 pub fn run(only: Option<String>) -> Result<L2Report, String> {
